@@ -251,7 +251,9 @@ def render(ir):
     if wrap:
         emit('print(("ev", "noop"));', 3)
     else:
-        emit('try { Fiber.yield(1); print(("ev", "topyield-returned")); } catch e { print(("ev", "topyield", type(e))); }', 3)
+        emit('var keep = a + 100;', 3)
+        emit('try { Fiber.yield(keep); print(("ev", "topyield-returned")); } catch e { print(("ev", "topyield", type(e), keep, a)); }', 3)
+        emit('print(("ev", "topyield-after", keep, a));', 3)
     emit("}", 2)
     emit("}", 1)
     emit('print(("ev", "shared", shared));', 1)
@@ -579,7 +581,8 @@ def model(ir, tape, faults, chooser=None):
                     ev.append([s("noop")])
                 else:
                     probes.inc("illegal:yield_at_top_level")
-                    ev.append([s("topyield"), cls("RuntimeError")])
+                    ev.append([s("topyield"), cls("RuntimeError"), num(a + 100), num(a)])
+                    ev.append([s("topyield-after"), num(a + 100), num(a)])
         ev.append([s("shared"), num(shared[0])])
         for fi in range(nf):
             cnt = None
